@@ -611,6 +611,10 @@ def one_real_run(ctx, cfg, seed):
             # likelihood AND prior evaluated through a process pool: the unit-hypercube prior has its own worker function
             # (seeded changes C14-eA / C03-hA handed the physical prior to the workers: logU = log p(unit point))
             **(dict(n_pool=2) if cfg.get("pool") else {}),
+            # warm start: every new level starts from a COPY of the previous flow; the previous levels must stay what they were when
+            # their densities were stored (seeded change C03-iA: the optimiser was re-created before the copy, so training level k
+            # moved level k-1)
+            **(dict(reset_flow=cfg["reset_flow"]) if "reset_flow" in cfg else {}),
         )
         orig = ImportanceNestedSampler.update_evidence
 
@@ -664,7 +668,8 @@ def correspond(ctx):
         for ci, cfg in enumerate(CONFIGS):
             for s in range(nseeds):
                 one_fake_run(ctx, cfg, base + 17 * ci + s + 1, resume=(s % 2 == 0))
-        dist_cfgs = [dict(CONFIGS[0], dist="lars-instance"), dict(CONFIGS[1], dist="lars"), dict(CONFIGS[10], pool=True)]
+        dist_cfgs = [dict(CONFIGS[0], dist="lars-instance"), dict(CONFIGS[1], dist="lars"), dict(CONFIGS[10], pool=True),
+                     dict(CONFIGS[0], reset_flow=False), dict(CONFIGS[6], reset_flow=2)]
         for ci, cfg in enumerate(([CONFIGS[0], CONFIGS[6], CONFIGS[10]] if ctx.quick else CONFIGS) + LCUT_CONFIGS + dist_cfgs):
             for s in range(ctx.scale(1, 3)):
                 one_real_run(ctx, cfg, base + 300 + 7 * ci + s)
